@@ -136,6 +136,12 @@ def run(ctx):
 
     # ---- schema ---------------------------------------------------------------------------------
     ctx.guard(_schema, ctx, py)
+    # ---- float64: the increments depend on the stamps only through their differences ------------------
+    ctx.guard(_translation_standin, ctx, py)
+
+    # frame of the modules under contract (no state kept between calls, arguments left alone): same analysis as C19
+    from props import C19 as _C19
+    ctx.guard(_C19.frame_obligations, ctx, py, "C15", {'strapdown'})
 
 
 def _schema(ctx, py):
@@ -178,6 +184,33 @@ def _schema(ctx, py):
             bad.append("%r -> %r" % (s, exc))
     ctx.ob("C15.schema.bad_sensor_type_raises", "c", not bad, "native-call", 0.0, "6 non-member values",
            cex=None if not bad else dict(accepted=bad), native=None if not bad else dict(reproduced=True))
+
+
+def _translation_standin(ctx, py):
+    """Bounded float64 stand-in for what the real-arithmetic proof cannot see: with stamps on a dyadic grid (so that shifting
+    the time origin is exact), the increments of a record starting at GPS time of week or at Unix time are BIT-identical
+    to those of the same record starting at 0 -- i.e. accuracy does not degrade with the size of the time tags."""
+    t0 = time.time()
+    fails = []
+    n_eval = 0
+    seeds = range(2 if ctx.tier == "quick" else 10)
+    for seed in seeds:
+        rng = np.random.RandomState(ctx.seed + seed)
+        n = 40
+        steps = rng.randint(3, 40, size=n) / 1024.0              # irregular, exactly representable
+        t = np.concatenate([[0.0], np.cumsum(steps)])
+        vals = np.hstack([0.5 * rng.randn(n + 1, 3), 9.8 * rng.randn(n + 1, 3)])
+        for st in ("rate", "increment"):
+            ref = py.strapdown.compute_increments_from_imu(pd.DataFrame(vals, index=pd.Index(t, name="time"), columns=GYRO + ACCEL), st)
+            for origin in (3600.0, 345600.0, float(2 ** 30), 1.7e9):
+                n_eval += 1
+                out = py.strapdown.compute_increments_from_imu(pd.DataFrame(vals, index=pd.Index(t + origin, name="time"), columns=GYRO + ACCEL), st)
+                if out.shape != ref.shape or not np.array_equal(out.values, ref.values):
+                    worst = float(np.max(np.abs(out.values - ref.values))) if out.shape == ref.shape else None
+                    fails.append(dict(sensor_type=st, time_origin=origin, seed=ctx.seed + seed, largest_difference_to_origin_0=worst,
+                                      stamps="cumulative sums of k/1024 s, k in 3..39"))
+    ctx.standin("C15.rt.time_translation", "%d records x {rate, increment} x 4 time origins (1 h, GPS week seconds, 2^30 s, Unix time), dyadic irregular stamps: increments bit-identical to origin 0"
+                % len(list(seeds)), n_eval, fails, time_s=time.time() - t0)
 
 
 def _schema_native(py, st):
